@@ -80,6 +80,31 @@ def generate(tier, rng):
             lines += G.feed_lines(parts)
             cases.append(Case("c05-%d" % n, lines, {"sizes": [len(p) for p in parts], "tags": ["req" if is_req else "resp", "kind%d" % kind, mode]}))
             n += 1
+    # long runs of digits wherever a number is read: status code, version, Content-Length, chunk size (arithmetic on
+    # them must not overflow, whatever the length of the run)
+    for ndig in (6, 9, 10, 11, 19, 20, 21, 40, 1000) + (() if quick else (100000,)):
+        digs = [b"9" * ndig, b"4294967496"[:ndig].ljust(ndig, b"6"), b"1" + b"0" * (ndig - 1)]
+        for d in digs:
+            streams = [
+                ("resp", b"HTTP/1.1 " + d + b" OK\r\nContent-Length: 0\r\n\r\n"),
+                ("resp", b"HTTP/1.1 200 OK\r\nContent-Length: " + d + b"\r\n\r\nabc"),
+                ("resp", b"HTTP/1.1 200 OK\r\nTransfer-Encoding: chunked\r\n\r\n" + d + b"\r\nabc\r\n0\r\n\r\n"),
+                ("req", b"POST / HTTP/1.1\r\nHost: a\r\nContent-Length: " + d + b"\r\n\r\nabc"),
+                ("req", b"POST / HTTP/1.1\r\nHost: a\r\nTransfer-Encoding: chunked\r\n\r\n" + d + b"\r\nabc\r\n0\r\n\r\n"),
+                ("req", b"GET / HTTP/" + d[:3] + b"." + d[:3] + b"\r\nHost: a\r\n\r\n"),
+            ]
+            for (side, data) in streams:
+                cfg = G.REQ_CFGS["srv"] if side == "req" else G.RESP_CFGS["cli"]
+                for mode in ("whole", "chunk7") + (("bytes",) if ndig <= 40 else ()):
+                    if mode == "whole":
+                        parts = [data]
+                    elif mode == "bytes":
+                        parts = [data[i:i + 1] for i in range(len(data))]
+                    else:
+                        parts = [data[i:i + 7] for i in range(0, len(data), 7)]
+                    lines = [cfg.new_line()] + G.feed_lines(parts)
+                    cases.append(Case("c05-%d" % n, lines, {"sizes": [len(p) for p in parts], "tags": [side, "digit-run", mode]}))
+                    n += 1
     # every single cut of a few corrupted short streams
     for i in range(20 if quick else 60):
         cfgname = rng.choice(["srv", "srvs", "tiny"])
